@@ -63,7 +63,8 @@ Definition step_oracle (p : policy) (o : ost) (now : N) (op1 : op) (a : ans) : N
   | ODelete r x => if ok_code a then covers p o now r x 3 else 0
   | OGrant r _ x _ _ => if ok_code a then covers p o now r x 3 else 0
   | ORevoke r _ x => if ok_code a then covers p o now r x 3 else 0
-  | ODelegate pa _ x l _ => if ok_code a then covers p o now pa x l else 0
+  | ODelegate pa _ xs l _ => if ok_code a then fold_left (fun acc x => if N.eqb acc 0 then covers p o now pa x l else acc) xs 0 else 0
+  | OSealed d r x => match a with ALevel (Some l) => if N.eqb l 0 then 0 else covers p o (now + d) r x l | _ => 0 end
   | OPerm r x => match a with ALevel (Some l) => if N.eqb l 0 then 0 else covers p o now r x l | _ => 0 end
   | OList r => match a with
                | AList l => fold_left (fun acc x => if N.eqb acc 0 then covers p o now r x 1 else acc) l 0
@@ -80,7 +81,7 @@ Definition track (o : ost) (now : N) (op1 : op) (a : ans) : ost :=
   | ODelete _ x => if ok_code a then OS (o_members o) (filter (fun g => negb (N.eqb (l_secret g) x)) (o_grants o))
                                        (filter (fun y => negb (N.eqb y x)) (o_secrets o)) else o
   | OGrant _ e x l t => if ok_code a then OS (o_members o) (o_grants o ++ [LG e x l (match t with Some d => Some (now + d) | None => None end)]) (o_secrets o) else o
-  | ODelegate _ c x l t => if ok_code a then OS (o_members o) (o_grants o ++ [LG c x l (match t with Some d => Some (now + d) | None => None end)]) (o_secrets o) else o
+  | ODelegate _ c xs l t => if ok_code a then OS (o_members o) (o_grants o ++ map (fun x => LG c x l (match t with Some d => Some (now + d) | None => None end)) xs) (o_secrets o) else o
   | ORevoke _ e x => if ok_code a then OS (o_members o) (filter (fun g => negb (N.eqb (l_from g) e && N.eqb (l_secret g) x)) (o_grants o)) (o_secrets o) else o
   | OMember a1 b1 => OS (o_members o ++ [(a1, b1)]) (o_grants o) (o_secrets o)
   | OUnmember a1 b1 => OS (filter (fun e => negb (N.eqb (fst e) a1 && N.eqb (snd e) b1)) (o_members o)) (o_grants o) (o_secrets o)
@@ -109,7 +110,7 @@ Definition check_hist (c : hist_case) : N :=
   let e := hist_oracle p (OS [] [] []) 0 ops as_ in
   if negb (N.eqb e 0) then e
   else
-    let '(_, ms) := run p gen_sweep_on_check gen_max_deleg_depth init 0 ops in
+    let '(_, ms) := run p gen_sweep_on_check gen_max_deleg_depth gen_sealed_guard init 0 ops in
     if list_eqb ans_eqb (map canon ms) as_ then V_OK else V_MISMATCH.
 
 (* ------------------------------------------------------------------ at-rest scan *)
